@@ -283,7 +283,8 @@ def gen(ctx):
 
 def oracle(ctx, cases, impl):
     """Failures of the property on the implementation's own output."""
-    fails, stats = [], {"sent": 0, "panic_lf_nul": 0, "mpd_value_limit": 0, "dquote_class": 0, "ok-class": 0}
+    fails, stats = [], {"sent": 0, "panic_lf_nul": 0, "mpd_value_limit": 0, "dquote_class": 0, "dquote_class_read_back_correctly": 0,
+                        "ok-class": 0}
     ocases, idx = [], []
     for i, (c, out) in enumerate(zip(cases, impl)):
         _, how, tree = c.split(" ")
@@ -322,6 +323,8 @@ def oracle(ctx, cases, impl):
             fails.append(Failure(c, f"sent {sent[:300]!r} for {show(want)[:300]}: rejected by MPD's filter grammar", k))
             continue
         got = norm(parse_ast(f["parse"]))
+        if got == want and k and int(f["tokens"]) == HOWS[how][1]:
+            stats["dquote_class_read_back_correctly"] += 1   # would show the excluded class to be wider than what fails
         if got != want:
             fails.append(Failure(c, f"sent {sent[:300]!r} for {show(want)[:300]}: MPD understands {show(got)[:300]}", k))
         elif int(f["tokens"]) != HOWS[how][1]:
@@ -374,6 +377,15 @@ def shrink(ctx, failure):
 
 
 def run(ctx, only=None):
+    ctx.notes += [
+        "theorem c11_roundtrip covers requests of the form <name> <filter> (find, count); the filter inside list <tag> <filter> and "
+        "count <filter> group <tag> is covered by the correspondence and oracle runs only",
+        "spec side (trusted, from memory): MpdTokenizer.v and MpdFilter.v; a leaf of the ported grammar is (word, operator, value): "
+        "MPD's tag-table lookup and the special grammar of base/modified-since/AudioFormat/prio are not ported; the theorems hold for "
+        "both readings of whether blanks are skipped after the parenthesis closing an AND list (the oracle uses the stricter one)",
+        "values of 4096 bytes or more are rejected by MPD's ExpectQuoted buffer; counted as mpd_value_limit, not as failures",
+        "values containing LF or NUL make Command::argument panic (documented); counted as panic_lf_nul, nothing is sent",
+    ]
     cases = gen(ctx) if only is None else only
     impl = ctx.run_impl(cases)
     disagreements = []
